@@ -14,16 +14,22 @@ Theorem matches_inside : forall h s i j, Matches h s i j -> i <= j <= length s.
 Proof. exact matches_bounds. Qed.
 Print Assumptions matches_inside.
 
+(* [norm] is regex-syntax's rebuild of an HIR through its simplifying constructors, applied by the
+   code between the two CRLF passes; the theorems hold for every function that preserves meaning
+   ([norm_ok]), in particular for the identity. *)
+Example norm_ok_id : norm_ok (fun h => h).
+Proof. exact (fun h s i j => iff_refl _). Qed.
+
 (* 1. strip.rs: no match of the stripped HIR contains the terminator (CRLF: neither \r nor \n) *)
-Theorem strip_sound : forall h lt h' s i j,
-  strip_from_match h lt = inl h' -> Matches h' s i j ->
+Theorem strip_sound : forall norm, norm_ok norm -> forall h lt h' s i j,
+  strip_from_match norm h lt = inl h' -> Matches h' s i j ->
   forall p, i <= p < j -> is_term_byte lt (byte_at s p) = false.
 Proof. exact strip_sound_proof. Qed.
 Print Assumptions strip_sound.
 
 (* 2. stripping removes the terminator-containing matches and nothing else ... *)
-Theorem strip_rejects_not_alters : forall h lt h' s i j,
-  strip_from_match h lt = inl h' ->
+Theorem strip_rejects_not_alters : forall norm, norm_ok norm -> forall h lt h' s i j,
+  strip_from_match norm h lt = inl h' ->
   (Matches h' s i j <-> Matches h s i j /\ forall p, i <= p < j -> is_term_byte lt (byte_at s p) = false).
 Proof. exact strip_rejects_not_alters_proof. Qed.
 Print Assumptions strip_rejects_not_alters.
@@ -31,12 +37,12 @@ Print Assumptions strip_rejects_not_alters.
 (* ... and it rejects only a non-ASCII terminator, or a pattern with a leaf that cannot match
    without a terminator byte: a literal containing it, or a non-empty class with no other member
    (for CRLF possibly after \r was removed from the classes) *)
-Theorem strip_error_witness : forall h lt e,
-  strip_from_match h lt = inr e ->
+Theorem strip_error_witness : forall norm h lt e,
+  strip_from_match norm h lt = inr e ->
   (exists b, lt = RTByte b /\ (127 < b)%N /\ e = EInvalidLineTerminator b) \/
   (exists b, is_term_byte lt b = true /\ e = ENotAllowed b /\
              (forced_leaf b h = true \/
-              exists h1, lt = RTCrlf /\ strip_ascii 13 h = inl h1 /\ forced_leaf 10 h1 = true)).
+              exists h1, lt = RTCrlf /\ strip_ascii 13 h = inl h1 /\ forced_leaf 10 (norm h1) = true)).
 Proof. exact strip_error_witness_proof. Qed.
 Print Assumptions strip_error_witness.
 
@@ -95,8 +101,8 @@ Print Assumptions candidate_never_skips_a_matching_line.
 
 (* 5. config.rs ConfiguredHIR::line_terminator: a terminator is advertised only when the final
       HIR has no haystack anchor, and then it is the configured one ... *)
-Theorem terminator_withheld_with_anchors : forall c tr f adv,
-  build c tr = inl (f, adv) ->
+Theorem terminator_withheld_with_anchors : forall norm c tr f adv,
+  build norm c tr = inl (f, adv) ->
   (contains_anchor_haystack f = true -> adv = None) /\
   (contains_anchor_haystack f = false -> adv = c_line_terminator c).
 Proof. exact terminator_withheld_proof. Qed.
@@ -104,8 +110,8 @@ Print Assumptions terminator_withheld_with_anchors.
 
 (* ... and whenever build_many advertises a terminator, no match of the final HIR (after ban check,
    stripping and -w/-x wrapping) contains one of its bytes *)
-Theorem build_line_terminator_promise : forall c tr f lt s i j,
-  build c tr = inl (f, Some lt) -> Matches f s i j ->
+Theorem build_line_terminator_promise : forall norm, norm_ok norm -> forall c tr f lt s i j,
+  build norm c tr = inl (f, Some lt) -> Matches f s i j ->
   forall p, i <= p < j -> is_term_byte lt (byte_at s p) = false.
 Proof. exact build_line_terminator_promise_proof. Qed.
 Print Assumptions build_line_terminator_promise.
@@ -126,18 +132,18 @@ Print Assumptions wrap_meaning.
 (* `[a\n]+b` with terminator \n: accepted, becomes `a+b`; it matches "aab" inside "x\naab" *)
 Definition ex_h : hir := HConcat [HRep 1 None true (HClassU [(10, 10); (97, 97)]%N); HLit [98]%N].
 Example strip_example :
-  strip_from_match ex_h (RTByte 10) = inl (HConcat [HRep 1 None true (HClassU [(97, 97)]%N); HLit [98]%N])
+  strip_from_match (fun h => h) ex_h (RTByte 10) = inl (HConcat [HRep 1 None true (HClassU [(97, 97)]%N); HLit [98]%N])
   /\ ends ex_h [120; 10; 97; 97; 98]%N 1 = [5]
   /\ ends (HConcat [HRep 1 None true (HClassU [(97, 97)]%N); HLit [98]%N]) [120; 10; 97; 97; 98]%N 1 = []
   /\ ends (HConcat [HRep 1 None true (HClassU [(97, 97)]%N); HLit [98]%N]) [120; 10; 97; 97; 98]%N 2 = [5].
 Proof. vm_compute. repeat split. Qed.
 (* `a\nb` is rejected *)
 Example strip_reject_example :
-  strip_from_match (HLit [97; 10; 98]%N) (RTByte 10) = inr (ENotAllowed 10).
+  strip_from_match (fun h => h) (HLit [97; 10; 98]%N) (RTByte 10) = inr (ENotAllowed 10).
 Proof. vm_compute. reflexivity. Qed.
 (* CRLF: `[\r\n]` is rejected at the second stage *)
 Example strip_crlf_example :
-  strip_from_match (HClassU [(10, 10); (13, 13)]%N) RTCrlf = inr (ENotAllowed 10).
+  strip_from_match (fun h => h) (HClassU [(10, 10); (13, 13)]%N) RTCrlf = inr (ENotAllowed 10).
 Proof. vm_compute. reflexivity. Qed.
 (* `é+` (U+E9): the non-matching set does not contain 0xC3, 0xA9, and contains 'a' *)
 Example non_matching_example :
@@ -145,7 +151,7 @@ Example non_matching_example :
 Proof. vm_compute. reflexivity. Qed.
 (* `\Afoo` with terminator \n: the terminator is withheld *)
 Example withheld_example :
-  build {| c_line_terminator := Some (RTByte 10); c_ban := Some 0%N; c_crlf := false; c_unicode := true;
+  build (fun h => h) {| c_line_terminator := Some (RTByte 10); c_ban := Some 0%N; c_crlf := false; c_unicode := true;
            c_word := false; c_whole_line := false |} (HConcat [HLook LStart; HLit [102; 111; 111]%N])
   = inl (HConcat [HLook LStart; HLit [102; 111; 111]%N], None).
 Proof. vm_compute. reflexivity. Qed.
@@ -159,8 +165,8 @@ Example inner_literals_example :
   /\ ends ex_lit_h [120; 102; 111; 111; 121; 32]%N 0 = [5].
 Proof. vm_compute. repeat split. Qed.
 
-Check strip_sound : forall h lt h' s i j,
-  strip_from_match h lt = inl h' -> Matches h' s i j ->
+Check strip_sound : forall norm, norm_ok norm -> forall h lt h' s i j,
+  strip_from_match norm h lt = inl h' -> Matches h' s i j ->
   forall p, i <= p < j -> is_term_byte lt (byte_at s p) = false.
 Check non_matching_sound : forall h b s i j,
   non_matching_bytes h b = true -> Matches h s i j -> forall p, i <= p < j -> byte_at s p <> b.
